@@ -263,6 +263,9 @@ pub fn firstuse_child(args: &[String]) -> i32 {
     let seed: u64 = get("--trial-seed").and_then(|s| s.parse().ok()).unwrap_or(1);
     let nthreads: usize = get("--threads").and_then(|s| s.parse().ok()).unwrap_or(8);
     let mut rng = crate::rng::Rng::new(seed, "firstuse", 0);
+    if args.iter().any(|a| a == "--cold") {
+        return cold_start_child(&mut rng);
+    }
     // expectations from the reference model (never touches CPU detection)
     let mut work = Vec::new();
     for t in 0..nthreads {
@@ -341,14 +344,72 @@ pub fn firstuse_child(args: &[String]) -> i32 {
     }
 }
 
+/// Cold start: in a process that has done nothing yet, a short random sequence of construction
+/// routes (conversions and clones first, with a bias towards AES and Kuznyechik) is run and
+/// every result compared with the reference. Anything that is initialised lazily by *some*
+/// constructors only, or cached from whichever instance came first, shows here.
+fn cold_start_child(rng: &mut crate::rng::Rng) -> i32 {
+    let es = entries();
+    let usable: Vec<usize> = es.iter().enumerate().filter(|(_, e)| !e.key_lens.is_empty()).map(|(i, _)| i).collect();
+    let conv: Vec<usize> = usable.iter().cloned().filter(|i| (es[*i].family == "aes" || es[*i].family == "kuznyechik") && es[*i].route != "new" && es[*i].route != "new_fixed").collect();
+    let gost: Vec<usize> = usable.iter().cloned().filter(|i| es[*i].family == "gost89").collect();
+    let mut bad: Vec<String> = Vec::new();
+    let mut seq: Vec<String> = Vec::new();
+    for step in 0..4 {
+        let pool = match (step, rng.below(4)) {
+            (0, 0) | (0, 1) => &conv,
+            (_, 2) => &gost,
+            _ => &usable,
+        };
+        let e = &es[pool[rng.below(pool.len())]];
+        let cl = gen::pick_class(rng, step as u64);
+        let key = entry_key(e, rng, cl);
+        seq.push(e.id());
+        let (r, inst) = match ((e.reference)(&key), (e.make)(&key)) {
+            (Some(r), Made::Ok(i)) => (r, i),
+            (Some(_), _) => {
+                bad.push(format!("{} (construction failed)", e.id()));
+                continue;
+            }
+            _ => continue,
+        };
+        let bs = inst.bs();
+        for encrypt in [false, true] {
+            let n = 1 + rng.below(3) * inst.width(encrypt);
+            let data = rng.bytes(n * bs);
+            let mut got = data.clone();
+            inst.run(encrypt, if n == 1 { Shape::Block } else { Shape::Blocks }, None, &mut got);
+            let mut want = data.clone();
+            for b in want.chunks_exact_mut(bs) {
+                if encrypt {
+                    r.encrypt(b)
+                } else {
+                    r.decrypt(b)
+                }
+            }
+            if got != want {
+                bad.push(format!("{}:{}", e.id(), if encrypt { "encrypt" } else { "decrypt" }));
+            }
+        }
+    }
+    println!("FIRSTUSE calls=0 max_in_flight=0 cold={} bad={}", seq.join(">").replace(' ', ""), bad.join(";").replace(' ', "_"));
+    if bad.is_empty() {
+        0
+    } else {
+        1
+    }
+}
+
 /// Parent: thousands of fresh processes, seeded delays inside detection.
 pub fn run_firstuse(ctx: &Ctx) -> Report {
     let mut rep = Report::new("firstuse");
     let exe = std::env::current_exe().expect("current_exe");
-    let trials = ctx.budget(160, 6000, 4);
+    let trials = ctx.budget(400, 8000, 4);
     let mut rng = ctx.rng("firstuse");
     let mut hist = vec![0i64; 18];
     let mut calls_total = 0i64;
+    let mut cold_trials = 0i64;
+    let mut cold_first: std::collections::BTreeMap<String, i64> = Default::default();
     let par = 8usize;
     let mut i = 0u64;
     while i < trials {
@@ -360,6 +421,10 @@ pub fn run_firstuse(ctx: &Ctx) -> Report {
             let delay = [0u64, 0, 2_000, 20_000, 200_000][rng.below(5)];
             let mut c = std::process::Command::new(&exe);
             c.arg("firstuse-child").args(["--trial-seed", &tseed.to_string(), "--threads", &threads.to_string(), "--detect-delay", &delay.to_string()]);
+            // every second trial is a single-threaded cold-start sequence instead of a race
+            if i % 2 == 1 {
+                c.arg("--cold");
+            }
             if ctx.detect_off {
                 c.args(["--detect", "off"]);
             }
@@ -398,8 +463,23 @@ pub fn run_firstuse(ctx: &Ctx) -> Report {
             let calls: i64 = field("calls=").parse().unwrap_or(0);
             let maxf: usize = field("max_in_flight=").parse().unwrap_or(0);
             let bad = field("bad=");
+            let cold = field("cold=");
             calls_total += calls;
-            hist[maxf.min(17)] += 1;
+            if cold.is_empty() {
+                hist[maxf.min(17)] += 1;
+            } else {
+                cold_trials += 1;
+                if let Some(first) = cold.split('>').next() {
+                    *cold_first.entry(first.split('#').next().unwrap_or("").to_string()).or_insert(0i64) += 1;
+                }
+                if !bad.is_empty() {
+                    rep.violation(
+                        format!("firstuse|wrong result in a cold process: {}", bad.split(';').next().unwrap_or("")),
+                        J::obj(vec![("trial_seed", J::s(tseed.to_string())), ("sequence", J::s(&cold)), ("bad", J::s(&bad))]),
+                    );
+                }
+                continue;
+            }
             if !bad.is_empty() {
                 rep.violation(
                     format!("firstuse|wrong result at first use: {}", bad.split(';').next().unwrap_or("")),
@@ -410,6 +490,8 @@ pub fn run_firstuse(ctx: &Ctx) -> Report {
     }
     rep.extra.insert("x_concurrent_detections_histogram".into(), J::A(hist.iter().map(|v| J::I(*v)).collect()));
     rep.set("firstuse", "trials", trials as i64);
+    rep.set("firstuse", "cold_start_trials", cold_trials);
+    rep.set("firstuse", "cold_start_distinct_first_types", cold_first.len() as i64);
     rep.set("firstuse", "detections_run", calls_total);
     let racing: i64 = hist[2..].iter().sum();
     rep.set("firstuse", "trials_with_concurrent_detection", racing);
